@@ -127,12 +127,51 @@ macro_rules! with_menu_type {
     };
 }
 
+/// Same for the `Copy` types of the menu: evaluates to `Some($body)`, or to `None` when the type is not `Copy`.
+#[macro_export]
+macro_rules! with_copy_menu_type {
+    ($idx:expr, $t:ident => $body:expr) => {
+        match $idx {
+            0 => { type $t = u8; Some($body) }
+            1 => { type $t = u16; Some($body) }
+            2 => { type $t = u32; Some($body) }
+            3 => { type $t = u64; Some($body) }
+            4 => { type $t = u128; Some($body) }
+            5 => { type $t = [u8; 3]; Some($body) }
+            6 => { type $t = [u16; 3]; Some($body) }
+            7 => { type $t = [u32; 3]; Some($body) }
+            8 => { type $t = [u64; 3]; Some($body) }
+            9 => { type $t = (u8, u32); Some($body) }
+            10 => { type $t = char; Some($body) }
+            11 => { type $t = bool; Some($body) }
+            12 => { type $t = (); Some($body) }
+            13 => { type $t = [u64; 0]; Some($body) }
+            14 => { type $t = $crate::Z16; Some($body) }
+            15 => { type $t = $crate::A16; Some($body) }
+            16 => { type $t = $crate::A32; Some($body) }
+            29 => { type $t = usize; Some($body) }
+            30 => { type $t = [u8; 5]; Some($body) }
+            33 => { type $t = [u64; 12]; Some($body) }
+            34 => { type $t = $crate::A64; Some($body) }
+            35 => { type $t = $crate::Wide320; Some($body) }
+            37 => { type $t = f64; Some($body) }
+            38 => { type $t = fn(u32) -> u32; Some($body) }
+            39 => { type $t = *const u8; Some($body) }
+            41 => { type $t = $crate::string::String<8>; Some($body) }
+            43 => { type $t = $crate::A128; Some($body) }
+            _ => None,
+        }
+    };
+}
+
 #[cfg(test)]
 mod tests {
     use super::*;
     #[test]
     fn menu_flags_match_the_types() {
         for idx in 0..MENU.len() {
+            fn is_copy<T: Copy>() -> bool { true }
+            assert_eq!(with_copy_menu_type!(idx, T => is_copy::<T>()).is_some(), MENU[idx].copy, "copy flag of {}", MENU[idx].rust);
             let (needs_drop, size) = with_menu_type!(idx, T => (std::mem::needs_drop::<T>(), std::mem::size_of::<T>()));
             assert_eq!(needs_drop, MENU[idx].droppable, "droppable flag of {}", MENU[idx].rust);
             if MENU[idx].zst_counted {
